@@ -665,26 +665,32 @@ static void *free_main(void *arg){
 }
 static void *solo_main(void *arg){ tctx *T=(tctx*)arg; me=T; run_body(T); me=0; return 0; }
 static int free_mode(int nth,int reps,const char *list){
-  int lb[64],nl=0,i,rep,bad=0,fenvbad=0; char tmp[600]; char *t; static tctx T[64]; pthread_t th[64]; static tctx soloT[NBODY]; long runs=0;
+  /* NOTE: the solo references are computed AFTER the concurrent phase so that the first repetition hits a cold library
+     (a lazily initialised table would otherwise be warmed up single-threaded and never raced) */
+  int lb[64],nl=0,i,rep,bad=0,fenvbad=0; char tmp[600]; char *t; static tctx T[64]; pthread_t th[64]; static tctx soloT[NBODY]; long runs=0,k;
+  struct rec { h128 dig; int body,rep,thr,fenv; char where[48]; } *recs;
   snprintf(tmp,sizeof(tmp),"%s",list);
   for(t=strtok(tmp,"+,");t&&nl<64;t=strtok(NULL,"+,")){ int id=body_id(t); if(id<0||(body_stream(id)>=0&&!g_st[body_stream(id)].have)){ fprintf(stderr,"bad body %s\n",t); return 2; } lb[nl++]=id; }
   if(nth>64)nth=64;
-  if(nl<1||nth<1)return 2;
+  if(nl<1||nth<1||reps<1)return 2;
+  recs=(struct rec*)calloc((size_t)nth*reps,sizeof(*recs));
   S.on=0; wa_on=0;
-  for(i=0;i<nl;i++){ pthread_t p; tctx_init(&soloT[lb[i]],0,lb[i]); pthread_create(&p,NULL,solo_main,&soloT[lb[i]]); pthread_join(p,NULL); }
   for(rep=0;rep<reps;rep++){
     pthread_barrier_init(&g_bar,NULL,nth);
     for(i=0;i<nth;i++){ tctx_init(&T[i],i,lb[(i+rep*3+(i*rep)%5)%nl]); pthread_create(&th[i],NULL,free_main,&T[i]); }
     for(i=0;i<nth;i++)pthread_join(th[i],NULL);
     pthread_barrier_destroy(&g_bar);
-    for(i=0;i<nth;i++){
-      runs++;
-      if(memcmp(&T[i].dig,&soloT[T[i].body].dig,sizeof(h128))){ if(!bad)printf("MISMATCH rep=%d thread=%d body=%s\n",rep,i,g_bname[T[i].body]); bad++; }
-      if(T[i].fenv_bad>=0){ if(!fenvbad)printf("FENV rep=%d thread=%d body=%s call=%s\n",rep,i,g_bname[T[i].body],T[i].fenv_where); fenvbad++; }
-    }
+    for(i=0;i<nth;i++){ struct rec *r=&recs[runs++]; r->dig=T[i].dig; r->body=T[i].body; r->rep=rep; r->thr=i; r->fenv=T[i].fenv_bad; memcpy(r->where,T[i].fenv_where,48); }
+  }
+  for(i=0;i<nl;i++){ pthread_t p; tctx_init(&soloT[lb[i]],0,lb[i]); pthread_create(&p,NULL,solo_main,&soloT[lb[i]]); pthread_join(p,NULL); }
+  for(k=0;k<runs;k++){
+    struct rec *r=&recs[k];
+    if(memcmp(&r->dig,&soloT[r->body].dig,sizeof(h128))){ if(!bad)printf("MISMATCH rep=%d thread=%d body=%s\n",r->rep,r->thr,g_bname[r->body]); bad++; }
+    if(r->fenv>=0){ if(!fenvbad)printf("FENV rep=%d thread=%d body=%s call=%s\n",r->rep,r->thr,g_bname[r->body],r->where); fenvbad++; }
   }
   printf("free threads=%d reps=%d runs=%ld maxactive=%d overlaps=%ld mismatches=%d fenv=%d\n",nth,reps,runs,g_maxactive,g_overlaps,bad,fenvbad);
   fflush(stdout);
+  free(recs);
   return (bad||fenvbad)?1:0;
 }
 /* TSan engine self-test: two threads racing on a harness-owned variable must be reported */
